@@ -1,4 +1,5 @@
 #!/bin/bash
+export VERIF_EVIDENCE_DIR=/tmp/verif-mut-evidence
 # re-runs the property check against every seeded change that was not detected yet and updates its meta.json
 TIER=${1:-quick}
 for d in /verif/seeded/*/; do
